@@ -7,7 +7,7 @@
 (* encodings of its components (element access, C07).                      *)
 (***************************************************************************)
 EXTENDS ARC4, Json
-CONSTANTS Universe,   \* "level1" | "level2" | "assign"
+CONSTANTS Universe,   \* "level1" | "level2" | "assign" | "strings"
           NVals
 VARIABLES t, done
 vars == <<t, done>>
@@ -21,7 +21,8 @@ AssignSet == BaseTypes \cup Arrays({TBool, TByte, TU(8), TU(16), TAddr, TStr}, {
                    TDA(TTup(<<TByte, TU(8)>>)), TDA(TTup(<<TU(8), TByte>>)), TSA(TTup(<<TU(8), TU(8)>>), 2), TSA(TSA(TU(8), 2), 2),
                    TTup(<<TU(8), TU(8), TU(8), TU(8)>>), TSA(TU(8), 3), TSA(TU(8), 4), TTup(<<TTup(<<TU(8), TStr>>), TU(8)>>),
                    TTup(<<TNamed(<<TU(64), TStr>>, "A"), TU(8)>>), TTup(<<TTup(<<TU(64), TStr>>), TU(8)>>)}
-Set == CASE Universe = "level1" -> Level1 [] Universe = "level2" -> Level2 [] Universe = "assign" -> AssignSet
+Set == CASE Universe = "level1" -> Level1 [] Universe = "level2" -> Level2 [] Universe = "assign" -> AssignSet [] Universe = "strings" -> Strings
+SampleOf(x, j) == IF Universe = "strings" THEN ValLong(x, j) ELSE Val(x, j)
 
 HasValues(x) == x.k \notin {"ref", "txn"}
 Comps(x, v) ==       \* component types / encodings for containers
@@ -35,7 +36,7 @@ Init == t \in Set /\ done = FALSE
 Emit == ~done /\ done' = TRUE /\ UNCHANGED t
         /\ PrintT("T|" \o ToJson([t |-> t, sig |-> SigString(t), dyn |-> IsDynamic(t), slen |-> StaticLen(t),
                                   vals |-> IF HasValues(t) /\ NVals > 0
-                                           THEN [j \in 1..NVals |-> LET v == Val(t, j - 1) IN [v |-> v, enc |-> Encode(t, v), comps |-> Comps(t, v)]]
+                                           THEN [j \in 1..NVals |-> LET v == SampleOf(t, j - 1) IN [v |-> v, enc |-> Encode(t, v), comps |-> Comps(t, v)]]
                                            ELSE <<>>]))
 Next == Emit
 Spec == Init /\ [][Next]_vars
